@@ -262,12 +262,17 @@ class KeysEqual(Matcher):
         return "KeysEqual(%s)" % ", ".join(map(repr, self.expected))
 
     def match(self, matchee):
-        from ._basic import _BinaryMismatch, Equals
+        from ._basic import _BinaryMismatch
 
+        # The keys are compared as sets (through ==, as a dict would): sorting
+        # them only gives a canonical order when they are totally ordered,
+        # which frozensets, say, are not.
         expected = _sorted_keys(self.expected)
-        matched = Equals(expected).match(_sorted_keys(matchee.keys()))
-        if matched:
-            return AnnotatedMismatch(
-                "Keys not equal", _BinaryMismatch(expected, "does not match", matchee)
-            )
-        return None
+        keys = list(matchee.keys())
+        if all(key in keys for key in expected) and all(
+            key in expected for key in keys
+        ):
+            return None
+        return AnnotatedMismatch(
+            "Keys not equal", _BinaryMismatch(expected, "does not match", matchee)
+        )
